@@ -5,6 +5,7 @@
 package zzverif
 
 import (
+	blsu "github.com/protolambda/bls12-381-util"
 	"crypto/sha256"
 	"encoding/json"
 	"fmt"
@@ -177,3 +178,49 @@ func UseOverrides(group string) {}
 // MustReturnWithin(n) obliges the code that follows to reach MustReturnWithin(0) within n interpreter steps;
 // otherwise the engine reports non-termination (a violation, replayed natively as a test timeout). No-op natively.
 func MustReturnWithin(n int) {}
+
+// SharedBegin marks every object allocated so far as shared between goroutines and starts recording, for each
+// access to such an object, which locks are held (lockset analysis, engine only). SharedEnd stops recording.
+func SharedBegin() {}
+func SharedEnd()   {}
+
+// OnUnlock registers f to run (in the calling goroutine, with the lock just released) after every mutex unlock:
+// the engine's way to interleave another call between the critical sections of the call under test. nil clears.
+func OnUnlock(f func()) {}
+
+// LocksHeld is the number of mutexes the (single) goroutine holds in the engine's lock model; 0 natively.
+func LocksHeld() int { return 0 }
+
+// BLS oracles. In the engine these are the uninterpreted functions that also stand in for the blsu entry points
+// the implementation calls (same function, same argument terms), so a reference verdict can say "the signature
+// verifies under this key over this message" without any cryptography. Natively they run the real checks.
+func BLSPubkeyValid(pub [48]byte) bool {
+	var p blsu.Pubkey
+	return p.Deserialize(&pub) == nil
+}
+func BLSSigValid(sig [96]byte) bool {
+	var s blsu.Signature
+	return s.Deserialize(&sig) == nil
+}
+func BLSVerify(pub [48]byte, msg []byte, sig [96]byte) bool {
+	var p blsu.Pubkey
+	var s blsu.Signature
+	if p.Deserialize(&pub) != nil || s.Deserialize(&sig) != nil {
+		return false
+	}
+	return blsu.Verify(&p, msg, &s)
+}
+func BLSFastAggregateVerify(pubs [][48]byte, msg []byte, sig [96]byte) bool {
+	var s blsu.Signature
+	if s.Deserialize(&sig) != nil {
+		return false
+	}
+	ps := make([]*blsu.Pubkey, len(pubs))
+	for i := range pubs {
+		ps[i] = new(blsu.Pubkey)
+		if ps[i].Deserialize(&pubs[i]) != nil {
+			return false
+		}
+	}
+	return blsu.FastAggregateVerify(ps, msg, &s)
+}
